@@ -44,7 +44,7 @@ def run(ctx):
             ws = gen.gen_workspace(root, ctx.rng, depth=ctx.rng.randint(1, 2), venv=False)
             materialize(ws)
             order = sorted(ws.workspace_py())
-            steps = hist.gen_history(ws, ctx.rng, ctx.rng.randint(3, max_steps))
+            steps = hist.gen_history(ws, ctx.rng, ctx.rng.randint(3, max_steps), parses=lambda t: vh.call(op="parses", text=t)["ok"])
             A = vh.new_db()
             apply_initial(vh, A, ws, order)
             AQ = vh.new_db()            # realistic long-lived server: queried at every prefix
@@ -173,7 +173,7 @@ def run(ctx):
                 lroot = ctx.scratch(f"l{h}")
                 lws = gen.gen_workspace(lroot, ctx.rng, depth=ctx.rng.randint(1, 2), venv=False, allow_imports=False)
                 materialize(lws)
-                lsp_history(ctx, lws, hist.gen_history(lws, ctx.rng, ctx.rng.randint(3, max_steps)))
+                lsp_history(ctx, lws, hist.gen_history(lws, ctx.rng, ctx.rng.randint(3, max_steps), parses=lambda t: vh.call(op="parses", text=t)["ok"]))
                 shutil.rmtree(lroot, ignore_errors=True)
             if h < 3:
                 ctx.sample({"workspace": ws.spec, "history": [(s["op"], s["rel"], s["valid"]) for s in steps]})
